@@ -23,7 +23,8 @@ total      np.ediff1d(x, to_begin=b) ↦ Np.ediff1d b x (on an index array: over
            np.sign ↦ NpP.sign · np.mod(k, m) ↦ k % m · np.arange(n) ↦ Np.arange n · np.zeros_like(x) ↦ x.map (fun _ => 0) ·
            np.concatenate((a, b)) ↦ a ++ b · x.sort() ↦ x := NpP.sortAsc x · x[a:b] ↦ Np.slice x a b · x[1:] ↦ x.drop 1 · x[:-1] ↦ x.dropLast ·
            x[s::k] ↦ NpP.sliceStep x s k · x[k:] += s ↦ x := NpP.iaddFrom x k s · np.array(x[, dtype=float]) ↦ x (copy / coercion: identity
-           on α) · np.interp ↦ parameter `interp` · X.append(e) ↦ X := X ++ [e] · X += [a, b] ↦ X := X ++ [a, b]
+           on α) · np.interp ↦ parameter `interp` · X.append(e) ↦ X := X ++ [e] · X += [a, b] ↦ X := X ++ [a, b] ·
+           np.unique(x) on an index array ↦ NpU.unique x (sorted distinct values; `Prelude/NpU.lean` is imported only by a file that uses it)
 statements `if` whose branches `return` ↦ `if c then do … else do …` (continuation form, no duplication of the rest unless both return) ·
            other `if`/`elif`/`else` ↦ `let tK ← if c then do …; pure (live names) else …` (a branch ending in `raise E` is `.error E`) ·
            `raise ValueError(..)` ↦ `.error .ValueError` · `raise NotImplemented(..)` ↦ `.error .TypeError` (`NotImplemented` is not callable) ·
@@ -484,6 +485,10 @@ class Tr:
             v, i = self.tr(a[0]), self.tr(a[1])
             if v.kind in ('arr', 'idx') and i.kind == 'idx':
                 return arr_of(self.bind(f"NpP.deleteE {self.mat(v, e)} {self.mat(i, e)}"), v.kind)
+        if name == 'np.unique' and n == 1 and not kw:      # 1-D integer index array only (no return_index / axis / float arrays)
+            v = self.tr(a[0])
+            if v.kind == 'idx':
+                return arr_of(f"(NpU.unique {self.mat(v, e)})", 'idx')
         if name == 'np.arange' and n == 1 and not kw:
             c = self.tr(a[0])
             if c.kind == 'nat':
@@ -1118,6 +1123,8 @@ class Unit:
     def file(self, ns, area, title, imports, opens=()):
         head = [f"-- GENERATED by tools/py2lean_x_peaks.py from eqsig/fns/peaks_and_crossings.py ({title}). Do not edit.",
                 "import EqsigVerif.Prelude.Np", "import EqsigVerif.Prelude.NpE", "import EqsigVerif.Prelude.NpP"]
+        if any('NpU.' in d for d in self.defs):
+            head.append("import EqsigVerif.Prelude.NpU")
         head += [f"import EqsigVerif.{ns}.{m}" for m in imports]
         head += ["", "set_option linter.unusedVariables false", f"namespace EqsigVerif.{ns}.{area}",
                  "open EqsigVerif EqsigVerif.Wire" + "".join(f" EqsigVerif.{ns}.{m}" for m in opens), "",
